@@ -6,6 +6,8 @@ import json
 
 from .. import b2check, core, gen
 
+MONS = ["C01"]
+
 
 def jobs(rng, thorough):
     n = 40000 if thorough else 400
@@ -15,9 +17,16 @@ def jobs(rng, thorough):
     return out
 
 
+def jobs_slow(rng, thorough):
+    """second pass, judged by the monitor only: some writes block inside the driver (write duration is not part of the L4 model)"""
+    n = 6000 if thorough else 120
+    return [(gen.conn_slow_writes(rng), rng.randrange(10 ** 9), rng.choice([0, 0, 3])) for _ in range(n)]
+
+
 def run(ctx: core.Ctx):
     ctx.lean_stage()
     b2check.run_b2(ctx, jobs, ["C01"], label="traffic scenarios")
+    b2check.run_b2(ctx, jobs_slow, MONS, label="slow (blocking) writes, monitor only", accept=False)
     ctx.info["rule"] = ("sessions of 1..4 callers with bursts of unique commands and idle gaps around the keep-alive interval; each under a seeded schedule with extra line-level preemptions; a case = one schedule; "
                         "non-trivial = distinct (spec, seed)")
     return ctx.finish()
